@@ -265,6 +265,13 @@ impl AsyncWrite for ScriptWriter {
         self.out.extend_from_slice(&buf[..n]);
         Poll::Ready(Ok(n))
     }
+    /// writev semantics: a prefix of the concatenated slices is accepted, possibly ending
+    /// inside a later slice (a sink with only `poll_write` would hide vectored-write bugs).
+    fn poll_write_vectored(self: Pin<&mut Self>, cx: &mut Context<'_>, bufs: &[io::IoSlice<'_>]) -> Poll<io::Result<usize>> {
+        let joined: Vec<u8> = bufs.iter().flat_map(|b| b.iter().copied()).collect();
+        with(|w| w.count("sink.vectored_write"));
+        self.poll_write(cx, &joined)
+    }
     fn poll_flush(mut self: Pin<&mut Self>, cx: &mut Context<'_>) -> Poll<io::Result<()>> {
         if self.flush_pending_64 > 0 && with(|w| w.tape.ratio(self.flush_pending_64, 64)) {
             cx.waker().wake_by_ref();
